@@ -7,10 +7,11 @@
      Model/LZSpec.v   specification side: the strict stream parser [sparse10] written from the format description.
    [wfb x] says that x is a byte string (every element < 256); lenN x < 2^24 is "shorter than 16 MiB".
    "Compression succeeds": Model/LZCompressMachine.v models get_occurrence_length and the loop of lz10.rs at
-   machine level (checked slice indexing, usize arithmetic in a profile, the 17-byte out_buffer array, the
-   shift 1 << (7 - buffered_blocks)); [C08_compress_succeeds] proves that it returns Ok of exactly [compress10 x]
-   for every input shorter than 2^63 bytes in either profile - no index out of range, no underflow - so the
-   list model [compress10] used by the other theorems and by the extracted code is what the code computes. *)
+   machine level (the size guard of F21, checked slice indexing, usize arithmetic in a profile, the 17-byte
+   out_buffer array, the shift 1 << (7 - buffered_blocks)); [C08_compress_succeeds] proves that it returns Ok of
+   exactly [compress10 x] for every input shorter than 2^24 bytes in either profile - no index out of range, no
+   underflow -, [C08_compress_rejects_large] that it is Err(InputTooLarge) from 2^24 bytes on, and
+   [C08_machine_model] that it is the exported list model [compress10_o] on EVERY input. *)
 From Coq Require Import List NArith Bool.
 From Mila Require Import Lib.Bytes Lib.Machine Model.LZCore Model.LZ10 Model.LZSpec Model.LZDecode Model.LZCompressMachine
   Proofs.LZCoreProofs Proofs.LZTokens Proofs.LZ10Proofs Proofs.LZDecodeProofs Proofs.LZRoundTrip Proofs.LZFormat Proofs.LZCompressMachineProofs.
@@ -41,16 +42,33 @@ Proof. exact compress10_round_trip. Qed.
 Theorem C08_layout : forall x, compress10 x = header10 (lenN x) ++ enc_body (senc V10) (tokens 18 x).
 Proof. exact compress10_enc. Qed.
 
-(* compression succeeds: the machine-level model (every index, subtraction and the fixed-size buffer checked)
-   never panics and computes compress10 *)
-Theorem C08_compress_succeeds : forall m x, lenN x < 2 ^ 63 -> compress10_m m x = Ok (compress10 x).
+(* compression succeeds for every input shorter than 16 MiB: the machine-level model (size guard of F21, every
+   index, subtraction and the fixed-size buffer checked) never panics and computes compress10 ... *)
+Theorem C08_compress_succeeds : forall m x, lenN x < 2 ^ 24 -> compress10_m m x = Ok (compress10 x).
+Proof. exact compress10_m_succeeds. Qed.
+
+(* ... and rejects every input of 16 MiB or more, whose length the 24-bit size field cannot store (repair of F21:
+   before it, such an input was written with a truncated size and read back as a few bytes) *)
+Theorem C08_compress_rejects_large : forall m x, 2 ^ 24 <= lenN x -> compress10_m m x = Err ETooLarge.
+Proof. exact compress10_m_rejects. Qed.
+
+(* for EVERY input and either profile the machine-level model is the exported list model [compress10_o]
+   (guard, then compress10), which is what the extracted code runs *)
+Theorem C08_machine_model : forall m x, compress10_m m x = compress10_o x.
 Proof. exact compress10_m_eq. Qed.
+
+(* whatever compress returns Ok for comes back from the library's decompressor: no size hypothesis needed *)
+Theorem C08_round_trip_of_every_success : forall x c, wfb x -> compress10_o x = Ok c ->
+  forall m, lz10_decompress m c = Ok x.
+Proof. exact compress10_o_round_trip. Qed.
 
 (* the same through the enum CompressionFormat::LZ10 (src/compression_format.rs:20-32): compress is the
    variant's compress, and decompress (compress x) = x, compress in profile mc, decompress in profile md *)
 Theorem C08_format_entry : forall mc md x, wfb x -> lenN x < 2 ^ 24 ->
   cf_compress CF10 mc x = Ok (compress10 x) /\ cf_decompress CF10 md (compress10 x) = Ok x.
-Proof. intros mc md x Hw Hn. split; [reflexivity | exact (compress10_round_trip x Hw Hn md)]. Qed.
+Proof.
+  intros mc md x Hw Hn. split; [exact (compress10_o_small x Hn) | exact (compress10_round_trip x Hw Hn md)].
+Qed.
 
 (* non-vacuity: a 20-byte input with an overlapping reference (a run) and a window reference *)
 Example C08_example :
@@ -63,5 +81,6 @@ Proof. vm_compute. repeat split; try reflexivity. repeat constructor. Qed.
 
 Example C08_example_machine :
   let x := [1;2;3;1;2;3;1;2;3;1;2;3;9;9;9;9;9;9;9;9] in
-  compress10_m Checked x = Ok [0x10; 20; 0; 0; 0x12; 1; 2; 3; 0x60; 2; 9; 9; 0x30; 1] /\ compress10_m Wrapping [] = Ok [0x10; 0; 0; 0].
-Proof. split; vm_compute; reflexivity. Qed.
+  compress10_m Checked x = Ok [0x10; 20; 0; 0; 0x12; 1; 2; 3; 0x60; 2; 9; 9; 0x30; 1] /\ compress10_m Wrapping [] = Ok [0x10; 0; 0; 0] /\
+  compress10_o x = Ok (compress10 x).
+Proof. repeat split; vm_compute; reflexivity. Qed.
